@@ -75,7 +75,7 @@ int prop_isolation(Run& run) {
     prof.max_classes = thorough ? 16 : 10;
     prof.max_methods = 4;
     prof.max_defs = 5;
-    const char* names[] = {"P_dbg", "P_b", "P_c", "P_rel", "P_map", "P_ind"};
+    const char* names[] = {"P_dbg", "P_b", "P_c", "P_rel", "P_map", "P_ind", "P_m1", "P_m2"};
     for (long cs = 0; cs < run.cases; ++cs) {
         if (run.only_case >= 0 && cs != run.only_case)
             continue;
@@ -83,8 +83,13 @@ int prop_isolation(Run& run) {
         Rng rng(run.seed, (uint64_t)cs);
         // two or three policies, chosen among six, sharing one table of class ids
         std::vector<Side> sides;
-        std::vector<int> pick = {0, 1, 2, 3, 4, 5};
+        std::vector<int> pick = {0, 1, 2, 3, 4, 5, 6, 7};
         rng.shuffle(pick);
+        if (rng.chance(1, 3)) { // a policy and the one obtained from it by rebind
+            pick = {6, 7, (int)rng.below(6)};
+            if (rng.chance(1, 2))
+                std::swap(pick[0], pick[1]);
+        }
         int nsides = rng.range(2, 3);
         for (int i = 0; i < nsides; ++i) {
             Side s;
